@@ -182,5 +182,5 @@ def run(ctx):
     # single call of the catalogue, thinned in the quick tier (one gcc build per case)
     val = {"fill": 1, "layout": 2, "cfg": [3, 5, 1, 2, 4], "pick": 7}
     quick = ctx.tier == "quick"
-    run_systematic(ctx, distinct_step_cases(ctx.shard, ctx.nshards, [n for n in set(names)], val, params=(0, 1) if quick else (0, 1, 2, 5)), guarded(ctx, check_case), keep_one_in=40 if quick else 2, label="template-single-steps", presharded=True)
+    run_systematic(ctx, distinct_step_cases(ctx.shard, ctx.nshards, [n for n in set(names)], val, params=(0, 1, 2, 3) if quick else (0, 1, 2, 3, 5, 7)), guarded(ctx, check_case), keep_one_in=100 if quick else 3, label="template-single-steps", presharded=True)
     run_cases(ctx, case_strategy(names), guarded(ctx, check_case), ctx.budget(320, 2560))
